@@ -133,7 +133,7 @@ Proof.
       unfold compute in E;
       destruct (fkind s) eqn:K; cbn in E;
       try (inversion E; subst; congruence);
-      destruct (prov s) as [|[v|e|e] rest]; cbn in E; inversion E; subst; cbn in Ho;
+      destruct (prov s) as [|[v|c e|e|] rest]; cbn in E; inversion E; subst; cbn in Ho;
       try congruence; inversion Ho; subst; reflexivity.
 Qed.
 
@@ -142,7 +142,7 @@ Ltac cases_step :=
   repeat (match goal with
   | |- context [match out ?s with _ => _ end] => destruct (out s) eqn:?
   | |- context [match fkind ?s with _ => _ end] => destruct (fkind s) eqn:?
-  | |- context [match prov ?s with _ => _ end] => destruct (prov s) as [|[?|?|?] ?] eqn:?
+  | |- context [match prov ?s with _ => _ end] => destruct (prov s) as [|[?|? ?|?|] ?] eqn:?
   | |- context [if sinking ?k then _ else _] => destruct (sinking k) eqn:?
   end; cbn in *).
 
@@ -202,7 +202,7 @@ Proof. split; reflexivity. Qed.
 
 (* non-vacuity: a concrete failing-provider history meets the hypotheses *)
 Example stable_nonvacuous :
-  let s := fst (step (init KLazy [PRaise 7] (Ok VNone)) OError) in
+  let s := fst (step (init KLazy [PRaise XAlreadyComputed 7] (Ok VNone)) OError) in
   out s = Some (Err 7) /\ snd (run s [OError; OValue; OIsComputed]) = [RErr 7; RRaise 7; RBool true].
 Proof. split; reflexivity. Qed.
 
@@ -210,7 +210,7 @@ Proof. split; reflexivity. Qed.
    that subscribes 4 and then drops the already notified 2; everybody registered at the completion
    is called once, 4 is not; the next completion (after reset_unsafe) goes over what they left *)
 Example reentrant_nonvacuous :
-  run_case KLazy [PRet (VInt 42); PRaise 9] (Ok VNone)
+  run_case KLazy [PRet (VInt 42); PRaise XAssertion 9] (Ok VNone)
     [OSubscribe 1 (CbUnsub 1); OSubscribe 2 CbOk; OSubscribe 3 (CbSeq (CbSub 4 (CbRaise XKey)) (CbUnsub 2));
      OValue; OReset; OError]
   = ([RUnit; RUnit; RUnit; RVal (VInt 42); RUnit; RErr 9],
@@ -280,7 +280,7 @@ Lemma compute_recls f s :
 Proof.
   unfold compute. change (fkind (recls_state f s)) with (fkind s).
   change (prov (recls_state f s)) with (prov s).
-  destruct (fkind s); auto; destruct (prov s) as [|[v|e|e] rest];
+  destruct (fkind s); auto; destruct (prov s) as [|[v|c e|e|] rest];
     rewrite ?with_run_recls, ?complete_recls; reflexivity.
 Qed.
 
@@ -337,4 +337,116 @@ Example raise_class_nonvacuous :
   run_case KLazy [PRet (VInt 3)] (Ok VNone)
     [OSubscribe 1 (CbRaise XAssertion); OSubscribe 2 CbOk; OValue; OError; OCall]
   = ([RUnit; RUnit; RVal (VInt 3); RNoError; RVal (VInt 3)], [(1, Ok (VInt 3)); (2, Ok (VInt 3))], 1, [1; 2]).
+Proof. reflexivity. Qed.
+
+(* ---- the CLASS of the Exception a PROVIDER raises does not matter ----
+   [recls_pout f] relabels the class of every raise of a provider script.  Future(provider): any [f].
+   A generator body (AsyncTask): any [f] that respects PEP 479 (StopIteration stays StopIteration,
+   nothing else becomes it) - [gen_cls_ok].                                                       *)
+Definition recls_pout (f : xcls -> xcls) (p : pout) : pout :=
+  match p with PRaise c e => PRaise (f c) e | _ => p end.
+Definition gen_cls_ok (f : xcls -> xcls) : Prop := forall c e, gen_exn (f c) e = gen_exn c e.
+Definition pstate (f : xcls -> xcls) (s : fstate) : fstate :=
+  mk (fkind s) (map (recls_pout f) (prov s)) (out s) (runs s) (subs s) (log s).
+
+Lemma gen_cls_ok_id : gen_cls_ok (fun c => c).
+Proof. intros c e. reflexivity. Qed.
+
+(* e.g. every class except StopIteration becomes FutureIsAlreadyComputed *)
+Lemma gen_cls_ok_example :
+  gen_cls_ok (fun c => match c with XStopIteration => XStopIteration | _ => XAlreadyComputed end).
+Proof. intros c e. destruct c; reflexivity. Qed.
+
+Lemma complete_pstate f s o : complete (pstate f s) o = pstate f (complete s o).
+Proof. unfold complete, pstate. cbn. destruct (fkind s); reflexivity. Qed.
+
+Lemma with_run_pstate f s rest :
+  with_run (pstate f s) (map (recls_pout f) rest) = pstate f (with_run s rest).
+Proof. reflexivity. Qed.
+
+Lemma compute_pstate f s : (fkind s = KTask -> gen_cls_ok f) ->
+  compute (pstate f s) = (pstate f (fst (compute s)), snd (compute s)).
+Proof.
+  intros G. destruct s as [k p o r sb lg]. unfold compute, pstate, complete, with_run. cbn in *.
+  destruct k; auto; destruct p as [|[v|c e|e|] rest]; cbn; auto.
+  rewrite (G eq_refl c e). reflexivity.
+Qed.
+
+Lemma read_pstate f s rep : (fkind s = KTask -> gen_cls_ok f) ->
+  read (pstate f s) rep = (pstate f (fst (read s rep)), snd (read s rep)).
+Proof.
+  intros G. unfold read. change (out (pstate f s)) with (out s).
+  destruct (out s); auto. rewrite (compute_pstate f s G). destruct (compute s) as [s' [e|]]; cbn; auto.
+  destruct (out s'); auto.
+Qed.
+
+Lemma step_pstate f s o : (fkind s = KTask -> gen_cls_ok f) ->
+  step (pstate f s) o = (pstate f (fst (step s o)), snd (step s o)).
+Proof.
+  intros G. destruct o; cbn [step]; rewrite ?(read_pstate f s _ G); auto;
+    change (out (pstate f s)) with (out s); change (fkind (pstate f s)) with (fkind s).
+  - destruct (out s); auto. now rewrite complete_pstate.
+  - destruct (out s); auto. now rewrite complete_pstate.
+  - destruct (sinking (fkind s)); reflexivity.
+Qed.
+
+Lemma step_fkind s o : fkind (fst (step s o)) = fkind s.
+Proof. destruct o; cases_step; congruence. Qed.
+
+Lemma run_pstate f ops : forall s, (fkind s = KTask -> gen_cls_ok f) ->
+  run (pstate f s) ops = (pstate f (fst (run s ops)), snd (run s ops)).
+Proof.
+  induction ops as [|o ops IH]; intros s G; cbn [run]; auto.
+  rewrite (step_pstate f s o G). pose proof (step_fkind s o) as K.
+  destruct (step s o) as [s1 r]. cbn [fst snd] in *. rewrite IH by (now rewrite K).
+  destruct (run s1 ops) as [s2 rs]. reflexivity.
+Qed.
+
+(* every compared observable - op results (what value()/error()/call report or raise), the callback
+   log, the run count, the registrations - is the same whatever Exception classes the provider raises *)
+Lemma provider_class_irrelevant f k p o ops : (k = KTask -> gen_cls_ok f) ->
+  run_case k (map (recls_pout f) p) o ops = run_case k p o ops.
+Proof.
+  intros G. unfold run_case.
+  assert (E : init k (map (recls_pout f) p) o = pstate f (init k p o)).
+  { destruct k; try reflexivity. destruct p; reflexivity. }
+  rewrite E, run_pstate. 2: { destruct k; cbn; auto; discriminate. }
+  destruct (run (init k p o) ops) as [s rs]. reflexivity.
+Qed.
+
+Lemma lazy_provider_class_irrelevant f p o ops :
+  run_case KLazy (map (recls_pout f) p) o ops = run_case KLazy p o ops.
+Proof. apply provider_class_irrelevant. discriminate. Qed.
+
+Definition is_computing_read (o : op) : bool :=
+  match o with OValue | OCall | OError => true | _ => false end.
+
+(* "after value()/error()/__call__ returned or raised the future is computed": a computing read of an
+   uncomputed Future(provider) whose provider does not raise a BaseException completes it - with the
+   error the provider raised, whatever its class, also a FutureIsAlreadyComputed about another future -
+   having run the provider exactly once and notified exactly the registered subscribers once *)
+Lemma lazy_read_completes s o :
+  fkind s = KLazy -> out s = None -> is_computing_read o = true ->
+  (forall e rest, prov s <> PBase e :: rest) ->
+  let s' := fst (step s o) in
+  exists oc, out s' = Some oc /\ runs s' = S (runs s) /\ log s' = log s ++ notes (subs s) oc /\
+    snd (step s o) = report o oc /\
+    match prov s with
+    | PRaise _ e :: _ => oc = Err e
+    | PDouble :: _ => oc = Err E_ALREADY
+    | PRet v :: _ => oc = Ok v
+    | _ => oc = Ok VNone
+    end.
+Proof.
+  intros K H R NB.
+  destruct o; cbn in R; try discriminate; cbn; unfold read, compute; rewrite H, K;
+    destruct (prov s) as [|[v|c e|e|] rest] eqn:P; try (exfalso; eapply NB; reflexivity);
+    cbn; eexists; (split; [reflexivity|]); unfold notes; rewrite notify_snapshot, map_map; auto.
+Qed.
+
+Example provider_class_nonvacuous :
+  run_case KLazy [PRaise XAlreadyComputed 7; PDouble] (Ok VNone)
+    [OSubscribe 1 CbOk; OError; OValue; OIsComputed; OReset; OCall; OError]
+  = ([RUnit; RErr 7; RRaise 7; RBool true; RUnit; RRaise E_ALREADY; RErr E_ALREADY],
+     [(1, Err 7); (1, Err E_ALREADY)], 2, [1]).
 Proof. reflexivity. Qed.
